@@ -59,7 +59,7 @@ func TestVerifC02LocRIBPerm(t *testing.T) {
 	rapid.Check(t, func(t *rapid.T) {
 		c := rec.Case()
 		defer c.Done()
-		d := kit.GenSelDomain(t)
+		d := kit.GenSelDomainMaybeMixed(t)
 		specs := d.GenSet(t, 2, 6, true)
 		var pfx *bnet.Prefix
 		if d.W == 32 {
